@@ -36,8 +36,11 @@ def corpus_repeated(ctx, reps):
 def check(ctx):
     # the lock sites of /repo's current source: every site of a non-leaf lock must be visible
     # to the lock-order recorder (theorem source_lock_sites_annotated over the regenerated table)
-    vlib.translate(ctx, [("lock_sites", "LockSites.lean")])
-    vlib.prove(ctx, ["KrillModel.Props.C18", "KrillModel.Props.C07"])
+    # ... and the follow-up tables of C09 ("no accepted change is lost" needs every follow-up to be scheduled
+    # with a guaranteed method AFTER the change it is for: publication_schedules_after_change)
+    vlib.translate(ctx, [("lock_sites", "LockSites.lean"), ("startup_guard", "StartupGuard.lean"),
+                         ("event_tasks", "EventTasks.lean"), ("scheduler_tasks", "SchedulerTasks.lean")])
+    vlib.prove(ctx, ["KrillModel.Props.C18", "KrillModel.Props.C07", "KrillModel.Props.C09"])
     found = False
     if vlib.build_harness(ctx, ["conc"]):
         n = 8 if ctx.tier == "quick" else 240
